@@ -91,6 +91,7 @@ CHECKS["C12"] = {
         {"pkg": MUX, "run": "^TestVerif_C12_AcceptBacklog$", "realtime": True, "checks": {"quick": 40, "thorough": 2000}, "shards": {"thorough": 8}, "timeout": {"quick": 900}},
         {"pkg": MUX, "run": "^TestVerif_C12_UnreadBacklog$", "realtime": True, "checks": {"quick": 10, "thorough": 300}, "shards": {"thorough": 4}, "timeout": {"quick": 900}},
         {"pkg": MUX, "run": "^TestVerif_C12_CloseRace$", "realtime": True, "checks": {"quick": 80, "thorough": 2000}, "shards": {"thorough": 8}, "timeout": {"quick": 900}},
+        {"pkg": MUX, "run": "^TestVerif_C12_AddConnRace$", "realtime": True, "checks": {"quick": 30, "thorough": 1500}, "shards": {"thorough": 8}, "timeout": {"quick": 600}},
         {"pkg": MUX, "run": "^TestVerif_C12_IdleRace$", "realtime": True, "checks": {"quick": 8, "thorough": 300}, "shards": {"thorough": 4}, "timeout": {"quick": 600}},
         {"pkg": MUX, "run": "^TestVerif_C12_Inactivity$", "checks": {"quick": 1500, "thorough": 150000}, "shards": {"thorough": 16}, "timeout": {"quick": 300}},
     ],
